@@ -29,7 +29,7 @@ ASSUMPTIONS = [
     "a violin density profile is only required for columns with > 2 finite, "
     "non-constant values",
 ]
-OBLIGATIONS = {"lhs": 50, "lhs:n=1": 3, "lhs:narrow-range": 5, "ppos": 50,
+OBLIGATIONS = {"lhs": 50, "lhs:n=1": 3, "lhs:narrow-range": 5, "lhs:scalar-pmax": 5, "ppos": 50,
                "stdnorm:ties": 20, "stdnorm:noties": 20, "stdnorm:reject-nan": 10,
                "pareto:complete": 30, "pareto:nan": 30, "pareto:ties": 30,
                "pareto:n<=1": 5, "box:nan-inf": 30, "box:lt4": 10, "box:constant": 5,
@@ -96,11 +96,15 @@ def run_lhs_case(ctx, case):
     pmax = np.asarray(case["pmax"], dtype=float)
     ctx.evaluated()
     ctx.tag("lhs")
+    pmax_arg = pmax.copy()
+    if case.get("scalar_pmax"):
+        ctx.tag("lhs:scalar-pmax")
+        pmax = np.repeat(pmax, len(pmin))
     if n == 1:
         ctx.tag("lhs:n=1")
     np.random.seed(int(case["npseed"]))
     ctx.api("lhs")
-    smp = su.lhs(n, pmin.copy(), pmax.copy())
+    smp = su.lhs(n, pmin.copy(), pmax_arg)
     ctx.check("lhs.shape", smp.shape == (n, len(pmin)), "lhs|shape", case,
               {"shape": list(smp.shape)})
     if smp.shape != (n, len(pmin)):
@@ -487,6 +491,12 @@ def run(ctx):
             pmax.append(hi)
         run_lhs_case(ctx, {"kind": "lhs", "n": n, "pmin": pmin, "pmax": pmax,
                            "npseed": int(rng.integers(0, 2 ** 31))})
+        if it % 4 == 0:
+            # one upper bound for all parameters (documented broadcast)
+            top = float(max(pmax)) + 1.0
+            run_lhs_case(ctx, {"kind": "lhs", "n": n, "pmin": pmin, "pmax": [top],
+                               "scalar_pmax": True,
+                               "npseed": int(rng.integers(0, 2 ** 31))})
         # ppos
         run_ppos_case(ctx, {"kind": "ppos", "n": int(rng.integers(1, 501)),
                             "cst": [0.0, 0.5, 0.3, float(rng.uniform(0, 0.5))][it % 4]})
